@@ -17,6 +17,7 @@ import (
 	"gitlab.com/aquachain/aquachain/core/vm"
 	"gitlab.com/aquachain/aquachain/crypto"
 	"gitlab.com/aquachain/aquachain/params"
+	"gitlab.com/aquachain/aquachain/rlp"
 	"verifharness/hx"
 )
 
@@ -81,9 +82,9 @@ type RichOpts struct {
 	GasLimit  uint64 // genesis gas limit (default 4712388); raise it for blocks with hundreds of transactions
 	Shifted   bool   // ShiftedConfig instead of TestChainConfig
 	EIP155At  uint64 // when non-zero: replay protection only from this height on (blocks below it must carry unprotected txs)
-	MaxTxs    int  // max transactions per block (default 5)
-	EmptyPct  int  // chance (percent) of an empty block
-	UnclePct  int  // chance (percent) of trying to include uncles
+	MaxTxs    int    // max transactions per block (default 5)
+	EmptyPct  int    // chance (percent) of an empty block
+	UnclePct  int    // chance (percent) of trying to include uncles
 	MinOffset int64
 	MaxOffset int64
 }
@@ -147,6 +148,9 @@ func NewRichTree(o RichOpts) *RichTree {
 	}
 	alloc[ProbeAddr] = core.GenesisAccount{Balance: big.NewInt(1), Code: CodeProbe}
 	alloc[BlockhashAddr] = core.GenesisAccount{Balance: big.NewInt(1), Code: CodeBlockhash()}
+	alloc[CallValueAddr] = core.GenesisAccount{Balance: big.NewInt(1), Code: CodeCallValue}
+	alloc[DelegatorAddr] = core.GenesisAccount{Balance: big.NewInt(1), Code: CodeDelegator}
+	alloc[CallValueIncAddr] = core.GenesisAccount{Balance: big.NewInt(1), Code: CodeCallValueInc}
 	gl := uint64(4712388)
 	if o.GasLimit != 0 {
 		gl = o.GasLimit
@@ -163,7 +167,7 @@ func NewRichTree(o RichOpts) *RichTree {
 // GenDB exposes the database holding the state of every generated block (read-only use: state dumps).
 func (t *Tree) GenDB() aquadb.Database { return t.gendb }
 
-func word(n uint64) []byte { return common.BigToHash(new(big.Int).SetUint64(n)).Bytes() }
+func word(n uint64) []byte             { return common.BigToHash(new(big.Int).SetUint64(n)).Bytes() }
 func addrWord(a common.Address) []byte { return common.LeftPadBytes(a.Bytes(), 32) }
 
 // uncleCandidates: nodes that may be included as uncle of a child of `parent`: within 7 generations, child of a PROPER
@@ -250,7 +254,7 @@ func (t *RichTree) AddRichChild(r *hx.Rng, parent int) *Node {
 				}
 				return cs[r.Intn(len(cs))], true
 			}
-			switch r.Intn(12) {
+			switch r.Intn(13) {
 			case 0, 1: // plain transfer between funded accounts, to a fresh address, or of zero value to an empty one
 				to := t.Addrs[r.Intn(len(t.Addrs))]
 				val := big.NewInt(int64(1 + r.Intn(1000)))
@@ -361,6 +365,22 @@ func (t *RichTree) AddRichChild(r *hx.Rng, parent int) *Node {
 				kind = "proxy-" + callee.Kind
 				data := append(append(addrWord(callee.Addr), word(uint64(r.Intn(6)))...), word(uint64(r.Intn(4)))...)
 				raw = types.NewTransaction(nonce, px.Addr, big.NewInt(0), 150000, price, data)
+			case 12: // msg.value consumers: top-level call, creation whose init code does the same, DELEGATECALL into it — all with value
+				val := big.NewInt(int64(1 + r.Intn(1000)))
+				switch r.Intn(4) {
+				case 3:
+					kind = "call-callvalue-inc"
+					raw = types.NewTransaction(nonce, CallValueIncAddr, val, 120000, price, nil)
+				case 0:
+					kind = "call-callvalue"
+					raw = types.NewTransaction(nonce, CallValueAddr, val, 120000, price, nil)
+				case 1:
+					kind = "create-callvalue"
+					raw = types.NewContractCreation(nonce, val, 150000, price, CodeCallValue)
+				default:
+					kind = "delegate-callvalue"
+					raw = types.NewTransaction(nonce, DelegatorAddr, val, 150000, price, nil)
+				}
 			default: // call with too little gas for the body (intrinsic gas is covered)
 				c, ok := pick("writer", "logger")
 				if !ok {
@@ -375,6 +395,7 @@ func (t *RichTree) AddRichChild(r *hx.Rng, parent int) *Node {
 			if err != nil {
 				panic(err)
 			}
+			Remember(tx)
 			b.AddTx(tx)
 			h := tx.Hash()
 			if _, ok := t.txIndex[h]; !ok {
@@ -464,6 +485,7 @@ func (t *RichTree) AddTxBlock(parent int, kind string, build func(nonce func(com
 		b.SetCoinbase(common.Address{0xc0, byte(id)})
 		b.SetExtra([]byte{byte(id >> 8), byte(id)})
 		for _, tx := range build(b.TxNonce) {
+			Remember(tx)
 			b.AddTx(tx)
 			h := tx.Hash()
 			if _, ok := t.txIndex[h]; !ok {
@@ -581,6 +603,7 @@ func (t *RichTree) AddHandBuilt(parent int, dt int64, kind string, build func(no
 	var kinds []string
 	txs := build(st.GetNonce)
 	for i, tx := range txs {
+		Remember(tx)
 		st.Prepare(tx.Hash(), common.Hash{}, i)
 		rc, _, err := core.ApplyTransaction(t.Cfg, bc, &coinbase, gp, st, header, tx, &header.GasUsed, vm.Config{})
 		if err != nil {
@@ -617,4 +640,52 @@ func (t *RichTree) AddHandBuilt(parent int, dt int64, kind string, build func(no
 	t.Contracts[id] = append([]Contract{}, t.Contracts[parent]...)
 	t.Kinds[id] = kinds
 	return n
+}
+
+// ---- msg.value consumers (the EVM must not hand out the transaction's own big.Int) ------------------------------------------
+
+// CodeCallValue: SSTORE(0, CALLVALUE+1); CALLVALUE ISZERO POP; ORIGIN BALANCE POP; GASPRICE POP; STOP — consumes stack items that
+// alias values owned by the transaction / the state (amount, balance, gas price).
+var CodeCallValue = common.FromHex("34600101600055" + "341550" + "323150" + "3a50" + "00")
+
+// CodeDelegator: DELEGATECALL(50000, CallValueAddr, 0, 0, 0, 0); POP; STOP (the callee sees the caller's msg.value).
+var CodeDelegator = common.FromHex("6000600060006000" + "61c1fd" + "6200c350" + "f4" + "5000")
+
+// CodeCallValueInc: SSTORE(0, CALLVALUE+1); STOP — nothing after it re-uses the consumed stack item, so an aliased amount is
+// changed by exactly one per execution (a mutation that does NOT reach a fixed point).
+var CodeCallValueInc = common.FromHex("34600101600055" + "00")
+
+var (
+	CallValueIncAddr = common.BytesToAddress([]byte{0xc1, 0xfb})
+	CallValueAddr    = common.BytesToAddress([]byte{0xc1, 0xfd})
+	DelegatorAddr    = common.BytesToAddress([]byte{0xc1, 0xfc})
+)
+
+// ---- transactions must survive execution unchanged ---------------------------------------------------------------------------
+
+var txEnc = map[*types.Transaction][]byte{}
+
+// Remember records the RLP bytes of a transaction object BEFORE it is executed for the first time (the builders call it).
+func Remember(tx *types.Transaction) {
+	if _, ok := txEnc[tx]; !ok {
+		b, err := rlp.EncodeToBytes(tx)
+		if err != nil {
+			panic(err)
+		}
+		txEnc[tx] = b
+	}
+}
+
+// ChangedTxs returns the indices (into t.Txs) of transaction objects that no longer encode to the bytes they had before their
+// first execution: executing a transaction (building or importing a block) must not modify it.
+func (t *Tree) ChangedTxs() []int {
+	var out []int
+	for i, tx := range t.Txs {
+		if want, ok := txEnc[tx]; ok {
+			if got, _ := rlp.EncodeToBytes(tx); string(got) != string(want) {
+				out = append(out, i)
+			}
+		}
+	}
+	return out
 }
